@@ -219,6 +219,12 @@ Proof.
     + rewrite mbind_run.
       pose proof (set_parent_spec t Unone (HB r) ic None s (conj HK (conj (fun F => F) (conj Hu Hb)))) as H.
       step_with H; exact H.
+  - (* ORemoveByName *)
+    apply RH. intros ix Ex Hx. rewrite mbind_run.
+    pose proof (remove_by_name_spec t Unone (HB r) ix name i s HK) as H. step_with H; exact H.
+  - (* OSetValueNone *)
+    apply RH. intros ix Ex Hx. rewrite mbind_run.
+    pose proof (write_value_none_spec t le Unone (HB r) ix names s (conj HK Hx)) as H. step_with H; exact H.
 Qed.
 
 Theorem step_inv r o : RInv r -> op_safe r o -> RInv (fst (fst (step t e le false r o))).
